@@ -89,7 +89,14 @@ def interp_cases(ctx):
                 else:
                     p.append(int(rng.integers(0, 8 * shape[k])) * dist[k] / 8)
             pts.append(p)
-        out.append({"kind": "interp", "shape": shape, "dist": dist, "points": pts})
+        c = {"kind": "interp", "shape": shape, "dist": dist, "points": pts}
+        if len(shape) > 1 and i % 2 == 0:
+            # the same grid given as a tuple of 1-D RGSpaces, with pairwise DIFFERENT pixel sizes
+            c["product"] = True
+            pool = [0.25, 0.5, 1.0, 2.0]
+            c["dist"] = [pool[(int(rng.integers(0, 4)) + k) % 4] for k in range(len(shape))]
+            c["points"] = [[p[k] / dist[k] * c["dist"][k] for k in range(len(shape))] for p in pts]
+        out.append(c)
     return out
 
 
@@ -157,7 +164,10 @@ def observe(c):
     import nifty.cl as ift
     k = c["kind"]
     if k == "interp":
-        dom = ift.RGSpace(tuple(c["shape"]), distances=tuple(c["dist"]))
+        if c.get("product"):
+            dom = tuple(ift.RGSpace((n,), distances=(dd,)) for n, dd in zip(c["shape"], c["dist"]))
+        else:
+            dom = ift.RGSpace(tuple(c["shape"]), distances=tuple(c["dist"]))
         op = ift.LinearInterpolator(dom, np.array(c["points"], dtype=float).T)
         return {"M": dense(op)}
     if k == "los":
@@ -358,6 +368,8 @@ def direct_failure(c):
         return None
     if k == "nufft":
         return _direct_nufft(c)
+    if k == "shiftfft":
+        return _direct_shiftfft(c)
     if k == "sampling_los":
         return _direct_sampling_los(c)
     raise ValueError(k)
@@ -385,6 +397,36 @@ def _direct_nufft(c):
     erra = np.linalg.norm(gota - wanta) / np.linalg.norm(wanta)
     if not erra < 10 * eps:
         return ("nufft-adjoint", "adjoint Nufft differs from the explicit sum: relative l2 error %.2e for epsilon %.0e" % (erra, eps))
+    return None
+
+
+def _direct_shiftfft(c):
+    """ShiftedPositionFFT documents `shift_directions : int, set of ints or None`: every documented form
+    must construct the operator, and equal forms must give the same operator."""
+    import nifty.cl as ift
+    dom = ift.RGSpace(tuple(c["shape"]), distances=tuple(c["dist"]))
+    forms = {"int": int(c["dir"]), "set": {int(c["dir"])}, "tuple": (int(c["dir"]),)}
+    if c.get("all_dirs"):
+        forms = {"none": None, "set": set(range(len(c["shape"]))), "tuple": tuple(range(len(c["shape"])))}
+    ops = {}
+    for name, sd in forms.items():
+        try:
+            ops[name] = ift.ShiftedPositionFFT(dom, 1e-9, None, sd)
+        except Exception as e:
+            return ("shiftfft-argument", "ShiftedPositionFFT(shift_directions=%r) raises %s: %s (documented: int, set of ints or None)" % (
+                sd, type(e).__name__, str(e)[:100]))
+    rng = np.random.default_rng(c["seed"])
+    ref = None
+    for name, op in ops.items():
+        inp = ift.MultiField.from_dict({
+            "grid": ift.makeField(op.domain["grid"], rng.standard_normal(op.domain["grid"].shape) + 0j) if ref is None else ref[0]["grid"],
+            "delta_coord": ift.makeField(op.domain["delta_coord"], 0.25 * rng.standard_normal(op.domain["delta_coord"].shape)) if ref is None else ref[0]["delta_coord"],
+        }, domain=op.domain)
+        val = op(inp).asnumpy()
+        if ref is None:
+            ref = (inp, val)
+        elif np.max(np.abs(val - ref[1])) > 1e-7 * max(1.0, np.max(np.abs(ref[1]))):
+            return ("shiftfft-argument", "ShiftedPositionFFT gives different results for equivalent forms of shift_directions")
     return None
 
 
@@ -467,7 +509,7 @@ class C35(C.Check):
                 dist[lab] = dist.get(lab, 0) + 1
             if c["kind"] in ("interp", "los"):
                 nz = int(np.count_nonzero(o["M"]))
-                nontriv.add((c["kind"], len(c["shape"]), min(nz, 12)))
+                nontriv.add((c["kind"], len(c["shape"]), min(nz, 12), bool(c.get("product"))))
             else:
                 nontriv.add((c["kind"], c.get("central"), c.get("n_new", 0) > c.get("n", 0)))
         name = "corr%d" % os.getpid()
@@ -496,7 +538,7 @@ class C35(C.Check):
         rng = ctx.rng(3510)
         todo = list(getattr(self, "bad_cases", []))
         n_hints = len(todo)
-        todo += [c for c in ctx.corpus() if c.get("kind") in ("nufft", "sampling_los")]
+        todo += [c for c in ctx.corpus() if c.get("kind") in ("nufft", "sampling_los", "shiftfft")]
         todo += self.cases if self.cases else (interp_cases(ctx) + los_cases(ctx) + ops_cases(ctx))
         for i in range((4 if ctx.quick else 30) * budget):
             d = 1 + i % 2
@@ -505,6 +547,9 @@ class C35(C.Check):
         for i in range(2 if ctx.quick else 10):
             todo.append({"kind": "sampling_los", "shape": [[6], [5, 4], [3, 4, 3]][i % 3], "dist": [[0.5], [1.0, 0.25], [0.5, 2.0, 1.0]][i % 3],
                          "seed": int(rng.integers(0, 2 ** 31))})
+        # last (an open known finding must not cut the other oracle cases short)
+        todo.append({"kind": "shiftfft", "shape": [4, 6], "dist": [0.5, 1.0], "dir": 0, "all_dirs": True, "seed": 2})
+        todo.append({"kind": "shiftfft", "shape": [4, 6], "dist": [0.5, 1.0], "dir": 1, "seed": 1})
         n, stats = 0, {}
         for kk, c in enumerate(todo):
             if kk >= n_hints and res.failing:
